@@ -127,6 +127,35 @@ theorem ssd_ready_facts (s : Ssd) (h : ready (.ssd s) = true) : s.asleep = false
   simp only [Ssd.Mode.good, e1, e2, Bool.and_eq_true, Bool.not_eq_true', beq_iff_eq] at this
   exact this
 
+/-- a program that establishes the mode (construction, wake_up) brings ANY controller of the panel's
+    kind — asleep or not, in partial mode or not, whatever a failed or interrupted call left — to a ready one -/
+theorem uc_recover (p : Panel) (u0 : Uc) (hp : p.ctrl = .uc u0) (first : List Act) (hf : establishesModeP p first = true)
+    (u : Uc) (h14 : u.has14 = u0.has14) :
+    ∃ u1 : Uc, (Ctrl.uc u).run (blocksOf first) = .uc u1 ∧ u1.asleep = false ∧ u1.partialOn = false ∧
+      u1.has14 = u0.has14 ∧ u1.p1.size = u.p1.size ∧ u1.p2.size = u.p2.size := by
+  have hl : Like p.ctrl (.uc u) := by rw [hp]; exact h14
+  have hr := op_establishes_ready p first (.uc u) hl hf
+  have hl' := run_like p.ctrl (.uc u) (blocksOf first) hl
+  rw [uc_run] at hr hl' ⊢
+  refine ⟨_, rfl, ?_, ?_, ?_, (Uc.run_sizes _ u).1, (Uc.run_sizes _ u).2⟩
+  · have g : (Uc.flags ((blocksOf first).foldl Uc.feed u)).good = true := hr
+    simp only [Uc.flags, Uc.Flags.good] at g; revert g; cases ((blocksOf first).foldl Uc.feed u).asleep <;> simp
+  · have g : (Uc.flags ((blocksOf first).foldl Uc.feed u)).good = true := hr
+    simp only [Uc.flags, Uc.Flags.good] at g; revert g
+    cases ((blocksOf first).foldl Uc.feed u).asleep <;> cases ((blocksOf first).foldl Uc.feed u).partialOn <;> simp
+  · rw [hp] at hl'; exact hl'
+
+theorem ssd_recover (p : Panel) (s0 : Ssd) (hp : p.ctrl = .ssd s0) (first : List Act) (hf : establishesModeP p first = true)
+    (s : Ssd) (hw : Ssd.WfSize s) (hx : s.xPix = s0.xPix) (hs : s.stride = s0.stride) (hr : s.rows = s0.rows) :
+    ∃ s1 : Ssd, (Ctrl.ssd s).run (blocksOf first) = .ssd s1 ∧ Ssd.WfSize s1 ∧ s1.asleep = false ∧ s1.entry = 3 ∧
+      s1.xPix = s0.xPix ∧ s1.stride = s0.stride ∧ s1.rows = s0.rows := by
+  have hl : Like p.ctrl (.ssd s) := by rw [hp]; exact ⟨hx, hs, hr⟩
+  have hrd := op_establishes_ready p first (.ssd s) hl hf
+  have hl' := run_like p.ctrl (.ssd s) (blocksOf first) hl
+  rw [ssd_run] at hrd hl' ⊢
+  obtain ⟨a, e⟩ := ssd_ready_facts _ hrd
+  rw [hp] at hl'
+  exact ⟨_, rfl, Ssd.run_wf _ s hw, a, e, hl'.1, hl'.2.1, hl'.2.2⟩
 /-- non-vacuity: construction, a partial update of an interior window, a display, a windowed clear — a
     history the hypothesis of `epd4in2_any_history_then_update` accepts (for every buffer and driver state) -/
 example (d : DState) (b : Bytes) : ∀ a, a ∈ [((Drivers.Epd4in2.prog {} d .new).getD []),
